@@ -14,6 +14,10 @@ pub(crate) mod verif_core {
     pub(crate) fn fiber_yield_native() -> Gc<ObjNative> {
         leak_gc(ObjNative::new(Gc::dangling(), fiber_yield as NativeFn, true))
     }
+    /// The function pointer itself, for harnesses that keep the ObjNative in a typed local.
+    pub(crate) fn fiber_yield_fn() -> NativeFn {
+        fiber_yield as NativeFn
+    }
     pub(crate) fn call_fiber_call(vm: &mut Vm, num_args: usize) -> Result<Value, Error> {
         fiber_call(vm, num_args)
     }
